@@ -210,6 +210,10 @@ _failed: Failed
         // C41: a publication point never fails the run because of what a repository contains: Err arises
         // only from the processor, from fatal store / collector I/O, or from the initial-run shortcut
         P::PubPoint::infallible() && !io_failure() && !self.run.initial ==> res is Ok,
+        // C41: the same for a CA whose manifest URI maps to a usable store path (this weaker clause holds
+        // on the tree on which the clause above is a recorded finding, and keeps guarding every other exit)
+        P::PubPoint::infallible() && !io_failure() && !self.run.initial && !path_unusable(&**self.cert)
+            ==> res is Ok,
         // C01: child tasks are for CAs validated under this one
         res matches Ok(tasks) ==> forall|i: int| 0 <= i < tasks@.len() ==>
             child_ok(#[trigger] tasks@[i], *self.cert, self.run.validation.max_ca_depth),
